@@ -21,6 +21,8 @@ if os.environ.get("VERIF_MAKO_PATH"):
     sys.path.insert(0, os.environ["VERIF_MAKO_PATH"])
 
 REGISTRY = {
+    "C13": {"module": "engines.c13_unwind", "level": "fault_enumeration", "quick": 4000, "thorough": 120000,
+            "per_run_timeout": 120.0, "shrink_budget": 60.0},
     "C14": {"module": "engines.c14_lookup", "level": "exploration", "quick": 36000, "thorough": 700000},
     "C15": {"module": "engines.c15_modfiles", "level": "fault_enumeration", "quick": 1500, "thorough": 30000,
             "per_run_timeout": 180.0, "determinism_sample": 48, "shrink_budget": 60.0},
@@ -153,6 +155,8 @@ def run_check(prop, tier, runs=None, workers=16, seed=None, start=0):
                    "pythonhashseed": os.environ.get("PYTHONHASHSEED")}
 
     exit_code = 0
+    shrink_total = spec.get("shrink_total", 150.0)
+    t_shrink0 = time.time()
     lines = []
     known_hit = {}
     reported = []
@@ -164,7 +168,9 @@ def run_check(prop, tier, runs=None, workers=16, seed=None, start=0):
             lines.append("KNOWN-FINDING: property=%s %s -- %s (hit in %d runs; e.g. run %d: %s)"
                          % (prop, sig, known[sig]["what"], ent["count"], idx, v["message"][:200]))
             continue
-        small, tries = shrink.shrink(engine, trace, sig, budget_s=spec.get("shrink_budget", 25.0))
+        # the shrinking budget is shared between the signatures of one check run
+        left = max(5.0, shrink_total - (time.time() - t_shrink0))
+        small, tries = shrink.shrink(engine, trace, sig, budget_s=min(spec.get("shrink_budget", 25.0), left))
         res = shrink.fails_with(engine, small, sig)
         if res is None:  # should not happen; fall back to the original
             small, res = trace, shrink.fails_with(engine, trace, sig)
